@@ -19,6 +19,5 @@ CONSTANTS
   InitUnder <- InitK12
   Broken = "bcast_after"
 VIEW DViewNoHist
-INVARIANTS DTypeOK D1_Order D3_View D4_Adder
-PROPERTIES P_D1 P_D2 P_D3 P_D4 P_D5 P_Shim 
+PROPERTIES P_D2
 CHECK_DEADLOCK FALSE
